@@ -4,7 +4,7 @@ from . import common as C
 from .gens import *
 
 PROP = "C10"
-LEAN_MODULE = "RSV.Props.C10"
+LEAN_MODULE = "RSV.Props.C10all"
 RULE = ("proof: C10_matrix / C10_fresh / C10_history_independent - for every finite history of Reconstruct* calls on the "
         "modelled encoder (inversion tree enabled or disabled) every answer equals the cache-free answer; trie laws and 'the key "
         "determines the survivor rows'. Correspondence: histories on one long-lived encoder per codec (matrix with cache on/off, "
